@@ -101,8 +101,8 @@ func c15Run(o *out, input string) {
 	case !e.has:
 		o.emit(input, "nodeadline 0 0 0")
 	default:
-		lo := e.dl.Sub(e.at)  // time left when the handler looked
-		hi := e.dl.Sub(t0)    // time left measured from before the call
+		lo := e.dl.Sub(e.at) // time left when the handler looked
+		hi := e.dl.Sub(t0)   // time left measured from before the call
 		o.emit(input, fmt.Sprintf("ok %d %d %d", w.Code, int64(lo), int64(hi)))
 	}
 }
